@@ -79,10 +79,12 @@ def nextG (after : Bool) (lim : Nat) (s0 s : State) (p : FId) (fp : Fiber) (rest
       else
         match checkGuarded after lim d fg false with
         | some (msg, true) =>
-          let s1 := s.setFiber p { fp with ctl := .wait c, child := some g }
-          match s1.fiber? g with
-          | some fg1 => unwind (s1.setFiber g { fg1 with status := stError }) (p :: rest) g sigError msg
-          | none => s1.stop (.bad "guard: no such fiber")
+          -- `janet_vm.fiber->child = child` (the caller blocks), the refused fiber's status := error; the two writes
+          -- touch different fibers unless the target is the caller itself (only possible in the old statement order)
+          let s2 := s.setFiber g { fg with status := stError }
+          match s2.fiber? p with
+          | some fp2 => unwind (s2.setFiber p { fp2 with ctl := .wait c, child := some g, env := fp.env, kont := fp.kont }) (p :: rest) g sigError msg
+          | none => s2.stop (.bad "guard: no such fiber")
         | some (_, false) => step s0
         | none =>
           if d + chainLen s (chainFuel s) g ≥ lim then s0.stop (.unmodelled "recursion guard inside a child chain") else step s0
